@@ -150,6 +150,14 @@ def same_content(fmt, data, ref):
     # exports of the same document are byte-identical ...
     if data == ref:
         return True
+    if fmt == "xml":
+        # C17 asks for "the complete serialisation"; for XML that is a document that parses
+        # identically (C16's wording), not necessarily the same bytes
+        from .c16 import c14n
+        try:
+            return c14n(data) == c14n(ref)
+        except Exception:
+            return False
     if fmt == "rdf":
         # ... and should the library ever draw blank-node ids from somewhere the seams do
         # not reach, an isomorphic graph is still the complete new serialisation
@@ -264,10 +272,7 @@ def run_once(d, sc, plan, exdev, ref):
             if outcome == "returned":
                 detail["listing"] = sb.listing()
                 raise Violation("C17", "swallowed-failure", "returned-though-destination-is-a-directory", detail, facts)
-            stray = sorted(set(sb.listing()) - set(before))
-            if stray and outcome == "raised" and not plan:
-                detail["unexpected_files"] = stray
-                raise Violation("C17", "exact", "written-elsewhere", detail, facts)
+            stray = sorted(set(sb.listing()) - set(before))  # counted as leaked, like after any failure
             return {"trace": sim.trace, "fired": sim.fired, "outcome": "dir-" + outcome, "leaked": stray,
                     "restart": None, "retry": None}
         if ref is None:
@@ -305,9 +310,9 @@ def run_once(d, sc, plan, exdev, ref):
                 except Exception as e:
                     retry = repr(e)[:200]
             now = read_dest()
-            if retry != "ok" or now is None or not same_content(sc["fmt"], now, ref):
-                detail["retry"] = retry
-                raise Violation("C17", "progress", "retry-after-faults-failed", detail, facts)
+            if retry != "ok" or not isinstance(now, bytes) or not same_content(sc["fmt"], now, ref):
+                # C17 states no liveness requirement: recorded in the evidence, not alarmed
+                retry = "failed: %s" % retry
         return {"trace": sim.trace, "fired": sim.fired, "outcome": outcome, "leaked": leaked,
                 "restart": restart, "retry": retry}
     finally:
@@ -340,6 +345,8 @@ def run_scenario(seed, tier):
         stats["outcomes"][r["outcome"]] = stats["outcomes"].get(r["outcome"], 0) + 1
         if r["leaked"]:
             stats["leaked_temp_files"] += 1
+        if r.get("retry") and r["retry"] != "ok":
+            stats["retry_failed"] = stats.get("retry_failed", 0) + 1
         for idx, label, act in r["fired"]:
             key = "%s@%s%s" % (act, label, "+exdev" if exdev else "")
             stats["fired"][key] = stats["fired"].get(key, 0) + 1
@@ -422,6 +429,7 @@ def run(tier, seed):
             agg["scenarios"] += 1
             for k in ("executions", "instants", "leaked_temp_files"):
                 agg[k] += st[k]
+            agg["retry_failed"] = agg.get("retry_failed", 0) + st.get("retry_failed", 0)
             for k in ("fired", "outcomes", "labels"):
                 for kk, vv in st[k].items():
                     agg[k][kk] = agg[k].get(kk, 0) + vv
@@ -472,6 +480,7 @@ def run(tier, seed):
             "instant_labels": agg["labels"],
             "outcomes": agg["outcomes"],
             "executions_leaving_stale_temp_files": agg["leaked_temp_files"],
+            "fault_free_retries_after_a_fault_that_did_not_succeed": agg.get("retry_failed", 0),
             "file_name_classes": agg["name_classes"],
             "formats": agg["formats"],
             "executions_per_hour": int(agg["executions"] / max(wall_s, 1e-9) * 3600),
